@@ -1042,3 +1042,47 @@ fn c13_owned_aligned_unsync_opt() {
 fn c13_borrowed_aligned_sync_pess() {
   c13_owned_aligned::<sync::Arena>(Freelist::Pessimistic, false);
 }
+
+// C18: truncate on an arena that has handed out nothing yet (allocated == data_offset): header, identification bytes
+// and the reserved prefix live below data_offset and must survive
+pub(crate) fn c18_truncate_fresh(unify: bool, reserved: u32, n: usize) {
+  let mut arena: unsync::Arena = Options::new().with_capacity(64).with_unify(unify).with_reserved(reserved).with_freelist(Freelist::Optimistic).with_minimum_segment_size(12).alloc::<unsync::Arena>().unwrap();
+  let dofs = arena.data_offset();
+  let v: u8 = kani::any();
+  if reserved > 0 {
+    unsafe { arena.reserved_slice_mut()[0] = v };
+  }
+  let x: u32 = kani::any();
+  kani::assume((x as usize) < dofs);
+  let before = unsafe { rd8(arena.raw_ptr(), x) };
+  arena.truncate(n);
+  let newcap = if n > dofs { n } else { dofs };
+  assert!(arena.capacity() == newcap, "C18: capacity() == max(n, allocated())");
+  assert!(arena.allocated() == dofs && arena.data_offset() == dofs, "C18: truncate keeps allocated() on an arena that has handed out nothing");
+  assert!(arena.minimum_segment_size() == 12 && arena.discarded() == 0, "C18: truncate keeps the header fields");
+  assert!(unsafe { rd8(arena.raw_ptr(), x) } == before, "C18: every byte below allocated() unchanged (reserved prefix, identification bytes, header)");
+  if reserved > 0 {
+    assert!(arena.reserved_slice()[0] == v, "C18: the reserved prefix survives truncate");
+  }
+  let m: u32 = kani::any();
+  kani::assume(m >= 1 && m <= 40);
+  let g = do_alloc::<unsync::Arena, u8>(&arena, Kind::Bytes, m);
+  assert!(g.ok == (dofs + m as usize <= newcap), "C18: afterwards allocations succeed exactly when they fit the new capacity");
+  if g.ok {
+    assert!(g.bo as usize == dofs, "C18: the first allocation after truncate starts at data_offset");
+  }
+  kani::cover!(g.ok, "allocation after truncate");
+  core::mem::forget(arena);
+}
+// @h props=C18 tier=quick timeout=900 mem=16 bounds=CAP=64,unify,reserved=5,nothing-allocated,n=96
+#[kani::proof]
+#[kani::unwind(10)]
+fn c18_truncate_fresh_unify_r5() {
+  c18_truncate_fresh(true, 5, 96);
+}
+// @h props=C18 tier=quick timeout=900 mem=16 bounds=CAP=64,plain,reserved=3,nothing-allocated,n=40
+#[kani::proof]
+#[kani::unwind(10)]
+fn c18_truncate_fresh_plain_r3() {
+  c18_truncate_fresh(false, 3, 40);
+}
